@@ -29,8 +29,8 @@ impl Check for C09 {
     }
     fn total_cases(&self, tier: Tier) -> u64 {
         match tier {
-            Tier::Quick => 48,
-            Tier::Thorough => 6000,
+            Tier::Quick => 96,
+            Tier::Thorough => 12000,
         }
     }
     fn budget_s(&self, tier: Tier) -> u64 {
